@@ -1,6 +1,7 @@
 package props
 
 import (
+	"os"
 	"fmt"
 	"net/netip"
 	"sort"
@@ -117,7 +118,7 @@ func init() {
 // genC09: forced selects one of the hand-written templates (0..c09Templates-1); -1 leaves the
 // choice to the coins. Within a run the first c09Templates of every 8 scenarios are the
 // templates in turn (GenAt), so that every batch, also the quick one, contains each of them.
-const c09Templates = 3
+const c09Templates = 4
 
 func genC09(r *kit.RNG, tier string, forced int) *C09Scenario {
 	sc := &C09Scenario{}
@@ -175,6 +176,26 @@ func genC09(r *kit.RNG, tier string, forced int) *C09Scenario {
 			{AtMin: back, Keys: []int{0, 1}, Signers: []int{0}}}
 		sc.CrashConfig = []int{0}
 		sc.Enumerate = 1
+		return sc
+	}
+	if pick(3, 0.07) {
+		// Template: a revocation is accepted while one of the writes that record it fails
+		// (every operation x every error kind is tried), the root then stops publishing the
+		// key, and the process restarts — before its next refresh could repeat the failed
+		// write — with a configuration that still lists the key. Whatever record the failing
+		// refresh managed to leave must keep the key out. (Refreshes run every 12 h from the
+		// start; the times below only aim at that grid, nothing is asserted about it.)
+		sc.Keys = []C09Key{{Alg: dns.ED25519, Idx: 100 + r.Intn(40)}, {Alg: dns.ED25519, Idx: 200 + r.Intn(40)}}
+		sc.Days = 60
+		sc.Config = []int{0}
+		grid := r.Range(62, 74) * 720
+		sc.Pubs = []C09Pub{{AtMin: 0, Keys: []int{0, 1}, Signers: []int{0}},
+			{AtMin: grid - r.Range(1, 600), Keys: []int{1}, Revoked: []int{0}, Signers: []int{0, 1}},
+			{AtMin: grid + r.Range(30, 350), Keys: []int{1}, Signers: []int{1}}}
+		sc.Restarts = []C09Restart{{AtMin: grid + r.Range(365, 700), Config: kit.Pick(r, [][]int{{0}, {0, 1}}), Persist: "keep"}}
+		sc.CrashConfig = []int{0}
+		sc.Enumerate = 1
+		sc.EnumAll = true
 		return sc
 	}
 	algs := []uint8{dns.ED25519, dns.ED25519, dns.ECDSAP256SHA256, dns.RSASHA256}
@@ -1090,6 +1111,12 @@ func runC09Once(sc *C09Scenario, tr *kit.Trace) (*kit.Result, *c09Run) {
 	kit.Bubble(func() { x.execute() })
 	if len(res.Faults) > 0 {
 		res.Nontrivial = true
+	}
+	if os.Getenv("VERIF_C09_DISKLOG") != "" && x.disk != nil {
+		// development aid: the operation log of the simulated disk, to place a fault by hand
+		for i, o := range x.disk.Log {
+			fmt.Fprintf(os.Stderr, "  disk op %d at %v: %s %s\n", i, o.At, o.Op, o.Path)
+		}
 	}
 	return res, x
 }
